@@ -57,6 +57,11 @@ def gen_script(r, cmds):
         if c in ('less_than', 'greater_than'):      # operands inside the partial f64 model: integer literals or clearly non-numeric text
             pool.append(lambda c=c: '%s = %s %s' % (r.choice(NAMES), c, ' '.join(q(r.choice(['0', '12', '-3', '007', '+5', 'x=z', 'b c', 'é', ''])) for _ in range(r.choice([1, 2, 2, 2, 3])))))
         elif c in cmds: pool.append(lambda c=c, n=n: '%s = %s %s' % (r.choice(NAMES), c, ' '.join(arg() for _ in range(n))))
+    pool.append(lambda: '%s = replace %s %s %s' % (r.choice(NAMES), q(r.choice(['aXbXc', 'aaa', 'abab', '', 'x=y'])), q(r.choice(['X', 'aa', 'ab', 'zz', '='])), q(r.choice(['', '-', 'XX']))))
+    def split_():
+        h = 'h%d' % len(handles); handles.append(h)
+        return '%s = split %s %s' % (h, q(r.choice(['aXbXc', 'aaa', 'abab', 'a b c', ''])), q(r.choice(['X', 'aa', 'ab', ' ', 'zz'])))
+    pool.append(split_)
     pool.append(lambda: '%s = substring %s %s' % (r.choice(NAMES), arg(), ' '.join(r.choice(['0', '1', '2', '-1', '5', 'x']) for _ in range(r.randint(0, 2)))))
     def coll():
         k = r.random()
